@@ -186,7 +186,11 @@ def _one(rng, fam, at, mon, sigs, hist):
                     pass
                 CTX["cur"] = {"at": at, "r": r, "fit": fit, "ignore_four": ign, "fam": fam, "pose": posed}
                 hist["rebuilt-with-other-options"] = hist.get("rebuilt-with-other-options", 0) + 1
-            solver.build_force_matrix(when=0, metadata={"ignore_four": ign}, circle_fit_method=fit)
+            if not ign and rng.random() < 0.4:
+                solver.build_force_matrix(when=0, circle_fit_method=fit)        # documented default: four-fold junctions kept
+                hist["default-metadata"] = hist.get("default-metadata", 0) + 1
+            else:
+                solver.build_force_matrix(when=0, metadata={"ignore_four": ign}, circle_fit_method=fit)
         except Exception as exc:
             import traceback
             mon.fail("build-raises", "the system can be assembled", exc=repr(exc)[:200], fam=fam, pose=posed, fit=fit,
